@@ -10,6 +10,8 @@ import (
 	"net/http"
 	"os"
 	"strings"
+	"sync"
+	"sync/atomic"
 	"testing"
 	"testing/synctest"
 	"time"
@@ -305,6 +307,35 @@ func c10Run(t *testing.T, p c10Plan) (res vfResult) {
 					res.failf("second-cookie-line", "pct=%d rollout cookie %q on a second Cookie header line went to %s, alone it goes to %s", pct, v, got, want)
 					return
 				}
+			}
+		}
+		// the decision is a pure function of the value also when many requests are decided at once
+		{
+			pct := probe[len(probe)-1]
+			e.r.SetRolloutSplit("svc", pct, nil)
+			var wg sync.WaitGroup
+			var bad atomic.Value
+			for gi := 0; gi < 8; gi++ {
+				v := p.Values[gi%len(p.Values)]
+				want := "active"
+				if included[v][pct] {
+					want = "rollout"
+				}
+				wg.Add(1)
+				go func() {
+					defer wg.Done()
+					for k := 0; k < 40; k++ {
+						if got, _ := e.side("kamal-rollout=" + v); got != want {
+							bad.Store(fmt.Sprintf("pct=%d cookie %q went to %s while other requests were being decided, alone it goes to %s", pct, v, got, want))
+							return
+						}
+					}
+				}()
+			}
+			wg.Wait()
+			if msg, _ := bad.Load().(string); msg != "" {
+				res.failf("not-sticky-under-concurrency", "%s", msg)
+				return
 			}
 		}
 		// rollout stop: back to active for everything
